@@ -142,6 +142,12 @@ func runC14Sender(c *core.Ctx) *core.Violation {
 
 func runC14History(c *core.Ctx) *core.Violation {
 	t := c.T
+	// the checkpoint hash is called redis-shake-checkpoint, or carries a slot suffix when the source is a cluster shard
+	ckName := []string{"redis-shake-checkpoint", "redis-shake-checkpoint", "redis-shake-checkpoint-aaab", "redis-shake-checkpoint-zk3q"}[t.Choose(4)]
+	otherName := "redis-shake-checkpoint"
+	if ckName == otherName {
+		otherName = "redis-shake-checkpoint-aaab"
+	}
 	env.DefaultOptions(conf.TypeSync)
 	lc := env.CaptureLog("info", 1<<20)
 	// source addresses: own + up to two others, prefixes/extensions of one another or containing the field words
@@ -172,7 +178,7 @@ func runC14History(c *core.Ctx) *core.Violation {
 	var hist []string
 	for i := 0; i < nops; i++ {
 		src := sources[t.Choose(len(sources))]
-		db := t.Choose(6)
+		db := []int{0, 1, 2, 3, 4, 5, 10, 12, 15}[t.Choose(9)] // two-digit databases share a first digit with others
 		st := get(db)
 		switch t.Choose(8) {
 		case 0: // clear run id (partial clear)
@@ -234,6 +240,7 @@ func runC14History(c *core.Ctx) *core.Violation {
 	c.Sample = map[string]interface{}{"own": own, "sources": sources, "history": hist}
 	c.Key = hashBytes([]byte(fmt.Sprint(own, sources, hist)))
 	cut := t.Choose(6) == 5
+	plantOther := t.Choose(4) == 3
 	var viol *core.Violation
 	var tgt *modelredis.Server
 	s := simrt.Run(c.TT, t, simrt.Config{MaxSteps: 500000, MaxSimTime: time.Hour, Trace: c.Trace}, func(s *simrt.Sim) {
@@ -261,7 +268,11 @@ func runC14History(c *core.Ctx) *core.Violation {
 				for _, f := range fs {
 					h.Hash = append(h.Hash, rc.Pair{F: []byte(f), V: []byte(st.fields[f])})
 				}
-				tgt.Plant(db, "redis-shake-checkpoint", &modelredis.Entry{Val: h})
+				tgt.Plant(db, ckName, &modelredis.Entry{Val: h})
+				if plantOther {
+					// the same fields under the other name (a run of this source with / without a slot range): not ours to touch
+					tgt.Plant(db, otherName, &modelredis.Entry{Val: &rc.Value{Kind: rc.KHash, Hash: append([]rc.Pair(nil), h.Hash...)}})
+				}
 			}
 			if t.Choose(2) == 1 {
 				tgt.Plant(db, fmt.Sprintf("data:%d", db), &modelredis.Entry{Val: &rc.Value{Kind: rc.KString, Str: []byte("x")}})
@@ -279,7 +290,7 @@ func runC14History(c *core.Ctx) *core.Violation {
 		var err error
 		finished := false
 		s.GoProc(proc, "load", func() {
-			runid, off, db, err = checkpoint.LoadCheckpoint(0, own, []string{tgtAddr}, "auth", tgtPassword, "redis-shake-checkpoint", false, false)
+			runid, off, db, err = checkpoint.LoadCheckpoint(0, own, []string{tgtAddr}, "auth", tgtPassword, ckName, false, false)
 			finished = true
 		})
 		for i := 0; i < 2000 && !finished && s.Alive(proc); i++ {
@@ -376,7 +387,13 @@ func runC14History(c *core.Ctx) *core.Violation {
 		// side effects: other sources untouched; own stale run id / offset removed from the other dbs
 		for _, d := range dbs {
 			st := state[d]
-			e := tgt.Get(d, "redis-shake-checkpoint")
+			if plantOther && len(state[d].fields) > 0 {
+				if oe := tgt.Get(d, otherName); oe == nil || len(oe.Val.Hash) != len(state[d].fields) {
+					viol = core.Violate("foreign-field-modified", site+",other-checkpoint-name", "the hash %q in db %d (another checkpoint name) was modified while loading %q", otherName, d, ckName)
+					return
+				}
+			}
+			e := tgt.Get(d, ckName)
 			now := map[string]string{}
 			if e != nil {
 				for _, p := range e.Val.Hash {
